@@ -462,6 +462,31 @@ BAD_QUERIES = ['', '/', '>>', 'abc', '/001001[', '@[x]/001001', '001001]', '@@',
 MD_QUERIES = ['%length', '%n_subsets', '%3.section_length', '%2.section_length', 'edition', '%x.y', '%9.length']
 
 
+SLICE_JUNK = ['[1:x]', '[:::]', '[2:x', '[1:2:3:4]', '[1,2]', '[-1:', '[x]', '[1:2]x', '[0:3:]', '[::0]', '[ 1 : 2 ]',
+              '[1:-]', '[--1]', '[1:2:3]', '[:]', '[9999]']
+
+
+def mutate_query(rng, q):
+    """a query expression damaged at a seeded place: most are rejected, at different depths of the
+    parser (inside an id, inside a slice, after a separator); some stay well-formed. Either way the
+    answer must be that of a fresh querent."""
+    r = rng.random()
+    if r < 0.35:
+        # slice junk after an id or after the subset marker
+        import re
+        ends = [m.end() for m in re.finditer(r'\d{6}', q)]
+        cut = rng.choice(ends) if (ends and rng.random() < 0.8) else rng.randrange(0, len(q) + 1)
+        return (q[:cut] + rng.choice(SLICE_JUNK) + (q[cut:] if rng.random() < 0.5 else '')) if rng.random() < 0.7 \
+            else '@' + rng.choice(SLICE_JUNK) + ' > ' + q.lstrip('@/>')
+    if r < 0.6:
+        return q[:rng.randrange(0, len(q) + 1)]                       # cut short
+    if r < 0.85:
+        i = rng.randrange(0, len(q) + 1)
+        return q[:i] + rng.choice('x:[]@/.> -,') + q[i:]              # one character inserted
+    i = rng.randrange(0, max(1, len(q)))
+    return q[:i] + q[i + 1:]                                          # one character dropped
+
+
 def gen_queries(rng, entry):
     w = bufrgen.walk(bytes.fromhex(entry['hex']))
     els = [i for i in w['ids'] if i < 100000][:6]
@@ -683,8 +708,14 @@ def gen_plan(family, seed, msgs, tier='quick', index=None):
             elif k == 'wire':
                 op = {'op': 'wire', 'h': h}
             elif k == 'query':
-                op = {'op': 'query', 'h': h, 'expr': rng.choice(chosen[hm]['qs'] + BAD_QUERIES[:3])
-                      if rng.random() < 0.85 else rng.choice(BAD_QUERIES)}
+                r = rng.random()
+                if r < 0.6:
+                    expr = rng.choice(chosen[hm]['qs'] + BAD_QUERIES[:3])
+                elif r < 0.7:
+                    expr = rng.choice(BAD_QUERIES)
+                else:
+                    expr = mutate_query(rng, rng.choice(chosen[hm]['qs']))
+                op = {'op': 'query', 'h': h, 'expr': expr}
             elif k == 'mdquery':
                 op = {'op': 'mdquery', 'h': h, 'expr': rng.choice(MD_QUERIES)}
             elif k == 'script':
